@@ -1,0 +1,64 @@
+//go:build verif
+
+package loader
+
+import (
+	"sync"
+
+	"github.com/jsightapi/jsight-schema-core/verifhook"
+)
+
+var (
+	verifSeenMu sync.Mutex
+	verifSeen   = map[*loader]struct{}{}
+)
+
+// verifLoaderGot reports the state of a loader just taken from the pool.
+func verifLoaderGot(l *loader) {
+	verifSeenMu.Lock()
+	_, reused := verifSeen[l]
+	if len(verifSeen) > 1<<14 {
+		verifSeen = map[*loader]struct{}{}
+	}
+	verifSeen[l] = struct{}{}
+	verifSeenMu.Unlock()
+
+	dirty := ""
+	add := func(s string) {
+		if dirty != "" {
+			dirty += ","
+		}
+		dirty += s
+	}
+	if l.rootSchema != nil {
+		add("rootSchema")
+	}
+	if l.scanner != nil {
+		add("scanner")
+	}
+	if l.lastAddedNode != nil {
+		add("lastAddedNode")
+	}
+	if l.rules != nil {
+		add("rules")
+	}
+	if l.rule != nil {
+		add("rule")
+	}
+	if l.node != nil {
+		add("node")
+	}
+	if l.mode != readDefault {
+		add("mode")
+	}
+	if l.nodesPerCurrentLineCount != 0 {
+		add("nodesPerCurrentLineCount")
+	}
+	if l.schema.RootNode() != nil {
+		add("schema.rootNode")
+	}
+	if l.schema.TypesList() == nil || len(l.schema.TypesList()) != 0 {
+		add("schema.types")
+	}
+	verifhook.LoaderGot(reused, dirty)
+}
